@@ -41,6 +41,18 @@ its predecessor (``asyncio.gather`` - how remote paths and the data manager use 
 shell's serialisation is exercised too. After the sequence the connector is undeployed (the persistent
 shell executes everything it was sent, then exits) and every process spawned through
 ``asyncio.create_subprocess_exec`` during the case (recorded by a wrapper) is awaited.
+Hangs: every connector call has an allowance of max(60 s, 50 x t_ref) (+ its own timeout), t_ref = the time the
+same command needs when run directly with plain ``subprocess`` under the same load (measured first for outputs
+>= 128 KiB). A call that does not come back is abandoned (all processes killed) and the whole case is run once
+more with twice the allowance; only if it hangs again while the reference finishes is it a violation
+(``C25:<path>:hangs[-on-large-output]``), otherwise the case is inconclusive (harness error).
+Buffers: the vf-shell connector's ``transferBufferSize`` (= the read size of the persistent shell) is drawn from
+{64, 128, 1024, 65536}; payload sizes are drawn around multiples of these, and a few outputs of 200 KiB - 1 MiB
+(more than a pipe plus a StreamReader buffer hold) are generated in the quick tier too.
+Protocol sub-check (deterministic loop, no process): ``BaseShell.execute`` against an in-memory shell whose reply
+``<output><marker>:<rc>\n`` arrives in drawn pieces (1, 7, buffer-1, buffer, buffer+1, random, whole) - the parsed
+``(output, rc)`` must be the scripted one for every chunking; a reader that still waits when all bytes have been
+delivered is an exact deadlock verdict of the loop.
 Timeouts: a command is *allowed* to raise ``TimeoutError`` / ``WorkflowExecutionException`` only when it
 sleeps longer than its timeout; whether it then does is never asserted (time is not a correctness signal).
 """
@@ -65,7 +77,9 @@ prop = Prop(
         "Hypothesis PBT with a side-effect probe script: model-based oracle (execution counter files, byte-exact "
         "observations of env/cwd/argument, expected output and exit status) on LocalConnector.run, BaseConnector.run "
         "(persistent sh shell and create_command+subprocess) and CommandTemplateMap.get_command; differential "
-        "persistent shell vs fresh processes over command sequences with injected timeouts and failures"
+        "persistent shell vs fresh processes over command sequences with injected timeouts and failures; the shell reply "
+        "protocol (BaseShell.execute) against an in-memory stream with generated chunkings on the deterministic loop "
+        "(exact deadlock verdict); differential hang verdict against a plain subprocess reference"
     ),
     rule=(
         "single/template: one probe command x path (local | shell | job | stdin | template default/service) x environment "
@@ -77,7 +91,10 @@ prop = Prop(
         "sequence: 1..6 (quick) / 1..8 (thorough) such commands on one connector, some issued concurrently with their "
         "predecessor, run on a persistent-shell connector and on a fresh-process connector (vf-shell with job names | "
         "LocalConnector); non-trivial = some command really timed out on the persistent shell and a later command "
-        "followed it. Distinct by the whole case."
+        "followed it. protocol: 1..3 scripted replies (payload length = k x buffer + delta, so that the end-marker line sweeps "
+        "over the read boundaries; text / no trailing newline / undecodable / marker-like text) x buffer size x chunking "
+        "x loop turns between deliveries; non-trivial = a read boundary actually fell inside the end-marker line. "
+        "Distinct by the whole case."
     ),
     level_text=(
         "Random search over inputs and histories with real sh processes; exactly-once is decided by counter files after "
@@ -474,7 +491,12 @@ class _Run:
         sleeper = cmd["t"] in ("sleep", "sleep-big", "timeout")
         flags = ("e" if cmd["err"] else "") + ("i" if stdin is not None else "") or "-"
         q = shlex.quote
-        words = ["sh", q(self.probe), q(self.state), cid, str(cmd["code"]), str(SLEEP) if sleeper else "0", q(ppath), flags, q(cmd["arg"])]
+        def words_for(state: str) -> list[str]:
+            return ["sh", q(self.probe), q(state), cid, str(cmd["code"]), str(SLEEP) if sleeper else "0", q(ppath), flags, q(cmd["arg"])]
+
+        words = words_for(self.state)
+        ref_state = os.path.join(self.root, "ref-state")  # the reference run must not touch the counters under test
+        os.makedirs(ref_state, exist_ok=True)
         cwd = wd if wd is not None else self.default_cwd
         env = cmd["env"] or {}
         expected = b"".join((("=" + env[v]) if v in env else "").encode() + b"|" for v in VARS)
@@ -486,6 +508,7 @@ class _Run:
             "idx": idx, "cid": cid, "cmd": cmd, "words": words, "wd": wd, "cwd": cwd, "stdin": stdin_path, "expected": expected,
             "timeout": {"none": None, "sleep": None, "big": BIG, "sleep-big": BIG, "timeout": SHORT}[cmd["t"]],
             "may_timeout": cmd["t"] == "timeout", "outcome": None, "flagged": False,
+            "ref_words": words_for(ref_state), "size": len(payload), "t_ref": None,
         }
         self.items.append(item)
         return item
@@ -648,7 +671,7 @@ def _has_metachar(cmd) -> bool:
 
 def _label_cmd(rec, cmd, prefix: str = "") -> None:
     n = len(_payload(cmd["out"]))
-    size = "0" if n == 0 else "<4K" if n < 4096 else "<64K" if n < 65536 else ">=64K"
+    size = "0" if n == 0 else "<4K" if n < 4096 else "<64K" if n < 65536 else "<128K" if n < LARGE_FROM else ">=128K"
     code = cmd["code"]
     rec.label(
         f"{prefix}focus:{cmd['focus']}",
@@ -758,8 +781,8 @@ async def _invoke(conn, loc, run: _Run, item, mode: str) -> None:
         kwargs["job_name"] = f"/vf/step/{item['idx']}"
     if item["stdin"] is not None:
         kwargs["stdin"] = item["stdin"]
-    try:
-        value = await conn.run(
+    call = asyncio.ensure_future(
+        conn.run(
             loc,
             list(item["words"]),
             environment=None if cmd["env"] is None else dict(cmd["env"]),
@@ -768,6 +791,16 @@ async def _invoke(conn, loc, run: _Run, item, mode: str) -> None:
             timeout=item["timeout"],
             **kwargs,
         )
+    )
+    done, _ = await asyncio.wait({call}, timeout=item["allowance"])
+    if not done:  # differential hang verdict, decided by the caller (never a plain wall-clock verdict)
+        call.cancel()
+        await asyncio.wait({call}, timeout=30)
+        item["outcome"] = {"type": "hung", "allowance": item["allowance"]}
+        item["fallback"] = item["fallbacks"][0] if item["fallbacks"] else None
+        return
+    try:
+        value = call.result()
         item["outcome"] = {"type": "returned", "value": value}
     except (asyncio.TimeoutError, WorkflowExecutionException) as e:
         item["outcome"] = {"type": "timeout", "exc": f"{type(e).__name__}({str(e)[:200]!r})"}
@@ -776,7 +809,7 @@ async def _invoke(conn, loc, run: _Run, item, mode: str) -> None:
     item["fallback"] = item["fallbacks"][0] if item["fallbacks"] else None
 
 
-async def _make_connector(path: str, sandbox: str):
+async def _make_connector(path: str, sandbox: str, buf: int = 65536):
     from vf.fakes.shellremote import ShellRemoteConnector, get_location
 
     if path in ("local", "local-job"):
@@ -784,17 +817,60 @@ async def _make_connector(path: str, sandbox: str):
 
         conn = LocalConnector("__LOCAL__", sandbox)
     else:
-        conn = ShellRemoteConnector(f"vf-{path}", sandbox, locations=1)
+        conn = ShellRemoteConnector(f"vf-{path}", sandbox, locations=1, transferBufferSize=buf)
     await conn.deploy(False)
     return conn, await get_location(conn)
 
 
-async def _run_sequence(path: str, root: str, sandbox: str, probe: str, cwd: str, cmds: list, stdin=None) -> _Run:
+class _Hung(Exception):
+    def __init__(self, run: _Run, item: dict):
+        super().__init__(f"{run.path} #{item['idx']} did not come back within {item['allowance']:.0f} s")
+        self.run = run
+        self.item = item
+
+
+def _reference_sync(run: _Run, item: dict, limit: float) -> float | None:
+    """The same command words, run directly by ``sh -c`` in a fresh process with plain ``subprocess`` (own state
+    directory): how long the command itself takes under the present load. None = not finished within ``limit``."""
+    import subprocess
+    import time
+
+    cmd = item["cmd"]
+    stdin = open(item["stdin"], "rb") if item["stdin"] is not None else subprocess.DEVNULL
+    t0 = time.monotonic()
+    try:
+        subprocess.run(
+            ["sh", "-c", " ".join(item["ref_words"])],
+            env={**os.environ, **(cmd["env"] or {})},
+            cwd=item["cwd"],
+            stdin=stdin,
+            stdout=subprocess.PIPE if cmd["cap"] else subprocess.DEVNULL,
+            stderr=subprocess.STDOUT,
+            timeout=limit,
+        )
+    except subprocess.TimeoutExpired:
+        return None
+    finally:
+        if item["stdin"] is not None:
+            stdin.close()
+    return time.monotonic() - t0
+
+
+async def _reference(run: _Run, item: dict, limit: float = 600.0) -> float | None:
+    return await asyncio.to_thread(_reference_sync, run, item, limit)
+
+
+async def _run_sequence(path: str, root: str, sandbox: str, probe: str, cwd: str, cmds: list, stdin=None, buf: int = 65536,
+                        factor: int = 1) -> _Run:
     """Run ``cmds`` in order on one fresh connector; a command marked ``par`` is issued concurrently with its
     predecessor (``asyncio.gather``, the way the data manager / remote paths issue commands). Results and
-    counts are judged as the calls come back."""
+    counts are judged as the calls come back.
+
+    Every call gets an *allowance* of ``factor * (max(60 s, 50 x t_ref) + 2 x timeout + 10 s)``, ``t_ref`` = the time
+    the same command needs when run directly (measured first for large outputs and on the second attempt);
+    a call that does not come back raises :class:`_Hung` - the caller decides (see ``_attempts``)."""
     run = _Run(root, "job" if path == "stdin" else path, probe, cwd)
-    conn, loc = await _make_connector(path, sandbox)
+    conn, loc = await _make_connector(path, sandbox, buf)
     timed_out_before = False
     try:
         groups: list[list[dict]] = []
@@ -807,18 +883,82 @@ async def _run_sequence(path: str, root: str, sandbox: str, probe: str, cwd: str
             else:
                 groups.append([item])
         for group in groups:
+            for item in group:
+                if item["size"] >= LARGE_FROM or factor > 1:
+                    item["t_ref"] = await _reference(run, item)
+                    if item["t_ref"] is None:
+                        raise HarnessError(f"the reference run of {' '.join(item['ref_words'])[:200]} did not finish (inconclusive)")
+                item["allowance"] = factor * (max(60.0, 50.0 * (item["t_ref"] or 0.0)) + 2 * (item["timeout"] or 0) + 10.0) * len(group)
             if len(group) == 1:
                 await _invoke(conn, loc, run, group[0], path)
             else:  # tasks start, and queue on the shell's lock, in list order
                 await asyncio.gather(*(asyncio.create_task(_invoke(conn, loc, run, item, path)) for item in group))
+            for item in group:
+                if item["outcome"]["type"] == "hung":
+                    raise _Hung(run, item)
             for item in group:
                 run.judge_count(item, "when the call came back")
                 run.judge_result(item, after_timeout=timed_out_before)
                 if item["outcome"]["type"] == "timeout" or item["fallback"]:
                     timed_out_before = True
     finally:
-        await conn.undeploy(False)  # closes the persistent shell: it first executes everything it was sent
+        try:  # closes the persistent shell: it first executes everything it was sent (bounded by BaseShell itself)
+            await asyncio.wait_for(conn.undeploy(False), 60)
+        except asyncio.TimeoutError:
+            pass
     return run
+
+
+async def _attempts(sb, specs: list[dict]) -> list[_Run]:
+    """Run the case (one ``_run_sequence`` per spec, concurrently). If a call hangs: kill everything, run the
+    whole case once more with twice the allowance (reference times measured under the present load); if it
+    hangs again while the same command run directly finishes, that is the violation - otherwise the case is
+    inconclusive (harness error)."""
+    for attempt in (1, 2):
+        with _Procs() as procs:
+            results = await asyncio.gather(
+                *(
+                    _run_sequence(spec["path"], os.path.join(sb.path, f"r-{spec['path']}-{attempt}"), sb.path, sb.probe, sb.cwd,
+                                  spec["cmds"], spec.get("stdin"), spec.get("buf", 65536), factor=attempt)
+                    for spec in specs
+                ),
+                return_exceptions=True,
+            )
+            states = [os.path.join(sb.path, f"r-{spec['path']}-{attempt}", "state") for spec in specs]
+            hung = [r for r in results if isinstance(r, _Hung)]
+            for r in results:
+                if isinstance(r, BaseException) and not isinstance(r, _Hung):
+                    procs.kill_all(states)
+                    raise r
+            if not hung:
+                await procs.quiesce(states)
+                return list(results)
+            procs.kill_all(states)
+            await procs.quiesce(states)
+            if attempt == 2:
+                h = hung[0]
+                t_ref = await _reference(h.run, h.item, limit=h.item["allowance"])
+                if t_ref is None:
+                    raise HarnessError(f"{h}: the reference run did not finish either (inconclusive)")
+                item = h.item
+                suffix = "-on-large-output" if item["size"] >= LARGE_FROM else ""
+                raise Violation(
+                    f"C25:{h.run.path}:hangs{suffix}",
+                    f"[{h.run.path} #{item['idx']}] run() did not come back within {item['allowance']:.0f} s (second attempt, twice the "
+                    f"allowance of the first) while the same command run directly by `sh -c` finishes in {t_ref:.2f} s: "
+                    f"{' '.join(item['words'])[:300]}\n  capture_output={item['cmd']['cap']} timeout={item['timeout']} output={item['size']} bytes "
+                    f"buffer={[s.get('buf') for s in specs]}",
+                )
+    raise AssertionError("unreachable")
+
+
+def _cap_cmd(cmd: dict, buf: int) -> dict:
+    """The persistent shell re-scans its accumulated output after every read of ``buf`` bytes (quadratic): with a
+    small buffer the payload is bounded so that a case stays cheap."""
+    limit = buf * 512
+    if cmd["out"]["n"] > limit:
+        return dict(cmd, out=dict(cmd["out"], n=cmd["out"]["n"] % limit))
+    return cmd
 
 
 def _final_judgement(run: _Run) -> None:
@@ -852,22 +992,17 @@ class _Sandbox:
 # sub-checks
 
 
-@prop.given("sequence", _seq_cases, quick=60, thorough=2000, loop="std", shrink=False, case_timeout=300, setup=_setup)
+@prop.given("sequence", _seq_cases, quick=60, thorough=2000, loop="std", shrink=False, case_timeout=1800, setup=_setup)
 async def check_sequence(case, rec):
     """The same sequence on a persistent-shell connector and on a fresh-process connector (vf-shell with job
     names, or the local connector)."""
-    cmds, fresh_path = case["cmds"], case.get("fresh", "job")
-    rec.label(f"len:{len(cmds)}", f"fresh:{fresh_path}")
+    fresh_path, buf = case.get("fresh", "job"), case.get("buf", 65536)
+    cmds = [_cap_cmd(cmd, buf) for cmd in case["cmds"]]
+    rec.label(f"len:{len(cmds)}", f"fresh:{fresh_path}", f"buffer:{buf}")
     for cmd in cmds:
         _label_cmd(rec, cmd, "cmd-")
-    with _Sandbox() as sb, _Procs() as procs:
-        runs = await asyncio.gather(
-            *(
-                _run_sequence(path, os.path.join(sb.path, f"r-{path}"), sb.path, sb.probe, sb.cwd, cmds)
-                for path in ("shell", fresh_path)
-            )
-        )
-        await procs.quiesce([r.state for r in runs])
+    with _Sandbox() as sb:
+        runs = await _attempts(sb, [{"path": "shell", "cmds": cmds, "buf": buf}, {"path": fresh_path, "cmds": cmds}])
         violations: list[tuple[str, str]] = []
         for run in runs:
             _final_judgement(run)
@@ -907,7 +1042,7 @@ async def check_sequence(case, rec):
         _raise_first(violations)
 
 
-@prop.given("single", _single_cases, quick=200, thorough=6000, loop="std", shrink=False, case_timeout=300, setup=_setup)
+@prop.given("single", _single_cases, quick=200, thorough=6000, loop="std", shrink=False, case_timeout=1800, setup=_setup)
 async def check_single(case, rec):
     """One command on one path."""
     path, cmd = case["path"], case["cmd"]
@@ -916,18 +1051,187 @@ async def check_single(case, rec):
         stdin = None
     elif path == "stdin" and stdin is None:
         stdin = {"name": "in.txt", "n": 17, "s": 0}
+    buf = case.get("buf", 65536)
+    if path == "shell":
+        cmd = _cap_cmd(cmd, buf)
+        rec.label(f"buffer:{buf}")
     rec.label(f"path:{path}")
     _label_cmd(rec, cmd)
     if stdin is not None:
         rec.label("stdin:hostile-name" if not _is_plain(stdin["name"]) else "stdin:plain-name")
-    with _Sandbox() as sb, _Procs() as procs:
-        run = await _run_sequence(path, os.path.join(sb.path, "r"), sb.path, sb.probe, sb.cwd, [cmd], stdin)
-        await procs.quiesce([run.state])
+    with _Sandbox() as sb:
+        (run,) = await _attempts(sb, [{"path": path, "cmds": [cmd], "stdin": stdin, "buf": buf}])
         _final_judgement(run)
         item = run.items[0]
         rec.label(f"outcome:{item['outcome']['type']}")
         rec.nontrivial(_has_metachar(cmd))
         _raise_first(run.violations)
+
+
+
+# ------------------------------------------------------------------------------------------------
+# the shell reply protocol, deterministically (no process, no clock)
+
+CHUNK_MODES = ["1", "7", "buf-1", "buf", "buf+1", "random", "random", "whole"]
+MARKER_LIKE = [b"SF_CMD_END_", b"SF_CMD_END_00000000-0000-4000-8000-000000000000:7\n", b"SF_CMD_END", b":0\n", b"echo \"SF_CMD_END_x:$?\"\n"]
+
+
+def _proto_cases():
+    reply = st.fixed_dictionaries(
+        {
+            "k": st.sampled_from(["text", "text", "textnl", "textnl", "ws", "empty", "bin", "marker-like", "marker-like"]),
+            "mult": st.integers(0, 3),  # payload length = mult * buffer + delta: sweeps the marker line over a read boundary
+            "delta": st.integers(-70, 12),
+            "s": st.integers(0, 999),
+            "rc": codes,
+            "cap": st.sampled_from([True, True, True, False]),
+            "mode": st.sampled_from(CHUNK_MODES),
+            "sizes": st.lists(st.integers(1, 300), min_size=1, max_size=12),
+            "yields": st.lists(st.integers(0, 3), min_size=1, max_size=6),
+            "timeout": st.sampled_from([None, None, 30]),
+            "envwd": st.booleans(),
+        }
+    )
+    return st.fixed_dictionaries({"buf": st.sampled_from([16, 64, 128, 1024, 65536]), "cmds": st.lists(reply, min_size=1, max_size=3)})
+
+
+def _proto_payload(reply, buf: int) -> bytes:
+    n = max(0, reply["mult"] * buf + reply["delta"])
+    if reply["mode"] in ("1", "7") or buf > 1024:
+        n %= 900 if reply["mode"] == "1" else 3000  # bounds the number of deliveries; the marker line still sweeps over the boundaries of small buffers
+        if buf > 1024:
+            n = max(0, n + reply["delta"])
+    k = reply["k"]
+    if k == "marker-like":
+        body = _payload({"k": "text", "n": n, "s": reply["s"]})
+        like = MARKER_LIKE[reply["s"] % len(MARKER_LIKE)]
+        cut = len(body) // 2
+        cut = len(body[:cut].decode("utf-8", "ignore").encode())
+        return body[:cut] + like + body[cut:] + (like if reply["s"] % 2 else b"")
+    return _payload({"k": k, "n": n, "s": reply["s"]})
+
+
+def _pieces(data: bytes, mode: str, buf: int, sizes: list) -> list[bytes]:
+    if mode == "whole" or not data:
+        return [data] if data else []
+    if mode == "random":
+        out, pos, i = [], 0, 0
+        while pos < len(data):
+            step = sizes[i % len(sizes)]
+            out.append(data[pos:pos + step])
+            pos += step
+            i += 1
+        return out
+    step = max(1, {"1": 1, "7": 7, "buf-1": buf - 1, "buf": buf, "buf+1": buf + 1}[mode])
+    return [data[i:i + step] for i in range(0, len(data), step)]
+
+
+@prop.given("protocol", _proto_cases, quick=2400, thorough=60000, loop="det", setup=_setup)
+async def check_protocol(case, rec):
+    """``BaseShell.execute`` / ``_read_with_output`` / ``_read_without_output`` against an in-memory shell: the
+    command text written to the shell is parsed for its end marker (as a shell would see it), the scripted reply
+    ``<output bytes><marker>:<rc>\\n`` is fed into a real ``asyncio.StreamReader`` in drawn pieces with drawn
+    numbers of loop turns between them; ``read(buffer_size)`` returns what a pipe would return. Whatever the
+    chunking, ``execute`` must return the scripted ``(output, rc)``; a reader still waiting when every byte has
+    been delivered is a deadlock of the deterministic loop (exact verdict, kind ``C25:deadlock``)."""
+    import re
+
+    from streamflow.core.exception import WorkflowExecutionException
+    from streamflow.deployment.shell import BaseShell
+
+    buf = case["buf"]
+    reads: list[int] = []
+    state = {"feeder": None, "written": []}
+
+    class Reader:
+        def __init__(self) -> None:
+            self.sr = asyncio.StreamReader(limit=2**22)
+
+        async def read(self, n: int = -1) -> bytes:
+            data = await self.sr.read(n)
+            reads.append(len(data))
+            return data
+
+        async def close(self) -> None:
+            pass
+
+    class Writer:
+        async def write(self, data) -> None:
+            text = bytes(data).decode("utf-8")
+            state["written"].append(text)
+            found = re.findall(r'^echo "([^"\n]+):\$\?"$', text, flags=re.M)
+            if len(found) != 1:
+                raise HarnessError(f"cannot find the end-marker echo in the command sent to the shell: {text[-300:]!r}")
+            script = state["script"]
+            data_out = script["payload"] + f"{found[0]}:{script['rc']}\n".encode()
+            script["marker_line"] = len(found[0]) + len(str(script["rc"])) + 2
+            pieces = _pieces(data_out, script["mode"], buf, script["sizes"])
+
+            async def feed():
+                for i, piece in enumerate(pieces):
+                    reader.sr.feed_data(piece)
+                    for _ in range(script["yields"][i % len(script["yields"])]):
+                        await asyncio.sleep(0)
+
+            state["feeder"] = asyncio.ensure_future(feed())
+
+        async def close(self) -> None:
+            pass
+
+    class FakeShell(BaseShell):
+        async def _close(self) -> None:
+            pass
+
+    reader = Reader()
+    shell = FakeShell(command=["sh"], buffer_size=buf)
+    shell._reader = reader
+    shell._writer = Writer()
+    straddled = False
+    for idx, reply in enumerate(case["cmds"]):
+        payload = _proto_payload(reply, buf)
+        state["script"] = {"payload": payload, "rc": reply["rc"], "mode": reply["mode"], "sizes": reply["sizes"], "yields": reply["yields"]}
+        del reads[:]
+        rec.label(f"chunks:{reply['mode']}", f"reply:{reply['k']}", "capture" if reply["cap"] else "no-capture",
+                  "timeout:none" if reply["timeout"] is None else "timeout:set")
+        where = f"[protocol #{idx}] buffer={buf} chunks={reply['mode']} payload={len(payload)} bytes rc={reply['rc']} capture={reply['cap']}"
+        try:
+            got = await shell.execute(
+                command=["probe", f"c{idx}"],
+                environment={"VF_A": "x y"} if reply["envwd"] else None,
+                workdir="/w d" if reply["envwd"] else None,
+                capture_output=reply["cap"],
+                timeout=reply["timeout"],
+            )
+        except WorkflowExecutionException as e:
+            delivered = state["feeder"] is not None and state["feeder"].done()
+            raise Violation("C25:protocol:raises-on-complete-reply" if delivered else "C25:protocol:raises",
+                            f"{where}: {type(e).__name__}: {e} (reads so far: {reads[-8:]})") from e
+        await state["feeder"]
+        # where the read boundaries fell relative to the marker line (measured)
+        total, start = 0, len(payload)
+        for n in reads[:-1]:
+            total += n
+            if start < total < start + state["script"]["marker_line"]:
+                straddled = True
+        if not reply["cap"]:
+            if got is not None:
+                raise Violation("C25:protocol:result-shape", f"{where}: capture_output=False returned {_clip(got)}")
+            continue
+        if not (isinstance(got, tuple) and len(got) == 2 and isinstance(got[0], str) and isinstance(got[1], int)):
+            raise Violation("C25:protocol:result-shape", f"{where}: returned {_clip(got)}")
+        out, status = got
+        try:
+            ok = out.strip() == payload.decode("utf-8").strip()
+        except UnicodeDecodeError:
+            ok = _ascii_skeleton(out) == _ascii_skeleton(payload)
+        if not ok:
+            raise Violation("C25:protocol:output-mismatch", f"{where}: returned {_clip(out, 300)}, scripted {_clip(payload, 300)} (reads {reads[:12]})")
+        if status != reply["rc"]:
+            raise Violation("C25:protocol:status-mismatch", f"{where}: returned status {status}")
+    if reader.sr._buffer:
+        raise Violation("C25:protocol:bytes-left-behind", f"buffer={buf}: {len(reader.sr._buffer)} reply bytes were not consumed")
+    rec.label(f"buffer:{buf}", f"len:{len(case['cmds'])}")
+    rec.nontrivial(straddled)
 
 
 TEMPLATES = {
@@ -937,7 +1241,7 @@ TEMPLATES = {
 }
 
 
-@prop.given("template", _tmpl_cases, quick=60, thorough=3000, loop="std", shrink=False, case_timeout=300, setup=_setup)
+@prop.given("template", _tmpl_cases, quick=60, thorough=3000, loop="std", shrink=False, case_timeout=1800, setup=_setup)
 async def check_template(case, rec):
     """create_command + CommandTemplateMap.get_command exactly as QueueManagerConnector.run calls them; the
     rendered script is executed by sh in a fresh process (the batch system's part)."""
